@@ -48,7 +48,9 @@ type c4Universe struct {
 	meet  [][]int   // -1 = bottom
 	mask  []*big.Int // down-set bit mask
 	conc  []bool
+	probe []bool // concrete and minimal: unifiable with v  <=>  instance of v
 	cbits *big.Int
+	pbits *big.Int
 	key   map[string]int
 }
 
@@ -608,7 +610,7 @@ func c4BuildUniverse(ctx *cue.Context) *c4Universe {
 		newID[oi] = ni
 	}
 	u := &c4Universe{src: make([]string, n), meet: make([][]int, n), mask: make([]*big.Int, n),
-		conc: make([]bool, n), cbits: new(big.Int), key: map[string]int{}}
+		conc: make([]bool, n), probe: make([]bool, n), cbits: new(big.Int), pbits: new(big.Int), key: map[string]int{}}
 	for oi := 0; oi < n; oi++ {
 		ni := newID[oi]
 		u.src[ni] = els[oi].key
@@ -629,6 +631,10 @@ func c4BuildUniverse(ctx *cue.Context) *c4Universe {
 		if els[oi].v.Validate(cue.Concrete(true)) == nil {
 			u.conc[ni] = true
 			u.cbits.SetBit(u.cbits, ni, 1)
+			if len(down[oi]) == 1 {
+				u.probe[ni] = true
+				u.pbits.SetBit(u.pbits, ni, 1)
+			}
 		}
 	}
 	return u
@@ -643,7 +649,7 @@ type c4Worker struct {
 func (u *c4Universe) newWorker() *c4Worker {
 	w := &c4Worker{ctx: cuecontext.New()}
 	for i, s := range u.src {
-		if u.conc[i] {
+		if u.probe[i] {
 			w.probes = append(w.probes, w.ctx.CompileString(s))
 			w.pid = append(w.pid, i)
 		}
@@ -815,7 +821,7 @@ func runC04(c *Cfg) {
 	u := c4BuildUniverse(ctx0)
 	g := &c4Gen{u: u}
 	c.Count(fmt.Sprintf("universe-elements-%d", len(u.src)))
-	cb := u.cbits.String()
+	cb := u.pbits.String() + " " + u.cbits.String()
 
 	// internal table cells of the default-mode algebra (I level): the tables themselves
 	// are bridge theorems; these lines tie the driver's protocol to them
